@@ -125,7 +125,8 @@ def handle (tb : Tables) (c impl : T) : String :=
   | none =>
   match decCase c with
   | none => "bad-op"
-  | some ⟨ins, vds, sup, decl, given, hs⟩ =>
+  | some ⟨ins0, vds, sup, decl, given, hs⟩ =>
+    let ins := ins0.map (fun d => { d with nullDflt := tb.inputNullTakesDefault })
     let ext := nativeExt hs
     let cfgCur := cfgCurOf tb
     let run := fun (cfg : Cfg) (tin : Scalar → Table) => encOutcome (formArgs cfg ext tin ins vds sup decl given)
@@ -190,6 +191,6 @@ def flags (tb : Tables) : List (String × Bool) :=
    ("D46", !(unsoundIn .float (inTbl tb .float)).isEmpty),
    ("D09", (cfgCurOf tb).listNotCoerced), ("D10", (cfgCurOf tb).symbolUnchecked), ("D41", (cfgCurOf tb).nullVarUsesDefault),
    ("D65", (cfgCurOf tb).objectUnchecked), ("D66", tb.inputDefaultsRaw),
-   ("D68", (cfgCurOf tb).symbolBaseEnum)]
+   ("D68", (cfgCurOf tb).symbolBaseEnum), ("D85", tb.inputNullTakesDefault)]
 
 end Ggql.Driver.C04
